@@ -419,3 +419,24 @@ def check_formula(paths, varmap, formula, free_ok=()):
             shown = {inv.get(a, a): total[a] for a in atoms}
             return False, f"for {shown}: code gives {got}, specification gives {want}"
     return True, f"{n} assignments over {len(atoms)} atoms agree"
+
+
+def all_edge_atoms_full(P, F, body):
+    """Like all_edge_atoms, but call atoms carry their rendered arguments (receiver included) so that two calls of the
+    same predicate on different receivers are distinguished."""
+    flow, cfg = P.flow(body), P.cfg(body)
+    out = {}
+    for sb in cfg.reach:
+        t = body.blocks[sb]["t"]
+        if t["k"] != "switch" or t["dty"] != "bool":
+            continue
+        k, payload, _bi, _fl = switch_chain(body, flow, sb)
+        if k == "call":
+            at = call_atom(P, body, flow, payload)
+        else:
+            at = switch_atom(P, body, flow, sb)
+        if at is None:
+            continue
+        for lab, v in switch_bool_labels(body, flow, cfg, sb).items():
+            out[(sb, lab)] = (at, v)
+    return out
